@@ -6,7 +6,10 @@ package main
 // and the module packages imported by risor_globals.go — and (b) three control facts of
 // risor_config.go the Impl model depends on: the order of the apply* calls in Config.init,
 // whether resolveModule's loop looks names up in its first parameter (the root module), and
-// the member keys that contain a "." (they would be unreachable to WithoutGlobal).
+// the member keys that contain a "." (they would be unreachable to WithoutGlobal); and (c) the
+// facts the option-sequence and reused-VM models depend on: which Config fields each option
+// constructor of risor_options.go writes, which VM fields vm.WithGlobals writes, that
+// applyOptions converts inputGlobals unconditionally, that resetForNewCode assigns vm.modules.
 
 import (
 	"fmt"
@@ -243,12 +246,131 @@ func init() {
 		if !sawInit || !sawResolve {
 			panic("C11: Config.init or resolveModule not found in risor_config.go")
 		}
+		// control facts of risor_options.go and vm/: which fields each option writes, and how a
+		// (reused) VM takes a configuration's globals over
+		writes := func(fd *ast.FuncDecl, recv string) []string {
+			set := map[string]bool{}
+			field := func(x ast.Expr) {
+				for {
+					switch y := x.(type) {
+					case *ast.IndexExpr:
+						x = y.X
+						continue
+					case *ast.ParenExpr:
+						x = y.X
+						continue
+					}
+					break
+				}
+				if se, ok := x.(*ast.SelectorExpr); ok {
+					if id, ok := se.X.(*ast.Ident); ok && id.Name == recv {
+						set[se.Sel.Name] = true
+					}
+				}
+			}
+			ast.Inspect(fd.Body, func(n ast.Node) bool {
+				switch x := n.(type) {
+				case *ast.AssignStmt:
+					for _, l := range x.Lhs {
+						field(l)
+					}
+				case *ast.IncDecStmt:
+					field(x.X)
+				case *ast.CallExpr:
+					if id, ok := x.Fun.(*ast.Ident); ok && (id.Name == "delete" || id.Name == "clear") && len(x.Args) > 0 {
+						field(x.Args[0])
+					}
+				}
+				return true
+			})
+			var out []string
+			for k := range set {
+				out = append(out, k)
+			}
+			sort.Strings(out)
+			return out
+		}
+		of, err := parser.ParseFile(fset, filepath.Join(repo, "risor_options.go"), nil, 0)
+		if err != nil {
+			panic(fmt.Sprintf("C11: %v", err))
+		}
+		var optionWrites []string
+		for _, d := range of.Decls {
+			fd, ok := d.(*ast.FuncDecl)
+			if !ok || fd.Body == nil || fd.Recv != nil {
+				continue
+			}
+			switch fd.Name.Name {
+			case "WithGlobal", "WithGlobals", "WithoutGlobal", "WithoutGlobals", "WithGlobalOverride", "WithoutDefaultGlobals":
+				optionWrites = append(optionWrites, fd.Name.Name+":"+strings.Join(writes(fd, "cfg"), "+"))
+			}
+		}
+		sort.Strings(optionWrites)
+		var vmWithGlobalsWrites []string
+		vo, err := parser.ParseFile(fset, filepath.Join(repo, "vm", "options.go"), nil, 0)
+		if err != nil {
+			panic(fmt.Sprintf("C11: %v", err))
+		}
+		for _, d := range vo.Decls {
+			if fd, ok := d.(*ast.FuncDecl); ok && fd.Body != nil && fd.Name.Name == "WithGlobals" {
+				vmWithGlobalsWrites = writes(fd, "vm")
+			}
+		}
+		vf, err := parser.ParseFile(fset, filepath.Join(repo, "vm", "vm.go"), nil, 0)
+		if err != nil {
+			panic(fmt.Sprintf("C11: %v", err))
+		}
+		convertsAlways, resetClearsModules, sawApply := false, false, false
+		for _, d := range vf.Decls {
+			fd, ok := d.(*ast.FuncDecl)
+			if !ok || fd.Body == nil || fd.Recv == nil {
+				continue
+			}
+			switch fd.Name.Name {
+			case "applyOptions":
+				sawApply = true
+				// `vm.globals, err = object.AsObjects(vm.inputGlobals)` as a statement of the function
+				// body itself (not under a condition)
+				for _, st := range fd.Body.List {
+					as, ok := st.(*ast.AssignStmt)
+					if !ok || len(as.Rhs) != 1 || len(as.Lhs) == 0 {
+						continue
+					}
+					c, ok := as.Rhs[0].(*ast.CallExpr)
+					if !ok {
+						continue
+					}
+					se, ok := c.Fun.(*ast.SelectorExpr)
+					if !ok || se.Sel.Name != "AsObjects" || len(c.Args) != 1 {
+						continue
+					}
+					arg, ok1 := c.Args[0].(*ast.SelectorExpr)
+					lhs, ok2 := as.Lhs[0].(*ast.SelectorExpr)
+					if ok1 && ok2 && arg.Sel.Name == "inputGlobals" && lhs.Sel.Name == "globals" {
+						convertsAlways = true
+					}
+				}
+			case "resetForNewCode":
+				for _, w := range writes(fd, "vm") {
+					if w == "modules" {
+						resetClearsModules = true
+					}
+				}
+			}
+		}
+		if !sawApply {
+			panic("C11: applyOptions not found in vm/vm.go")
+		}
 		s := "namespace Risor.Generated.C11\n\n"
 		s += "/-- attribute names: GetAttr `case` strings (" + strconv.Itoa(len(caseNames)) + ") and string map keys (" + strconv.Itoa(len(keyNames)) + ") of " + strings.Join(dirs, ", ") + " -/\n"
 		s += "def attrUniverse : List String := " + c11StrList(universe) + "\n\n"
 		s += "/-- member keys containing a dot -/\ndef dottedMemberKeys : List String := " + c11StrList(dotted) + "\n\n"
 		s += "/-- methods Config.init calls on its receiver, in source order -/\ndef initOrder : List String := " + c11StrList(initOrder) + "\n\n"
 		s += "/-- resolveModule's loop calls GetAttr on its first parameter (the root module) -/\ndef resolveLooksUpInRoot : Bool := " + strconv.FormatBool(resolveInRoot) + "\n\n"
+		s += "/-- per option constructor of risor_options.go: the Config fields its body writes (assignment, delete) -/\ndef optionWrites : List String := " + c11StrList(optionWrites) + "\n\n"
+		s += "/-- the VirtualMachine fields vm.WithGlobals writes -/\ndef vmWithGlobalsWrites : List String := " + c11StrList(vmWithGlobalsWrites) + "\n\n"
+		s += "/-- applyOptions converts ALL of inputGlobals into vm.globals unconditionally on every call -/\ndef vmConvertsAlways : Bool := " + strconv.FormatBool(convertsAlways) + "\n\n"
+		s += "/-- resetForNewCode assigns vm.modules -/\ndef vmResetClearsModules : Bool := " + strconv.FormatBool(resetClearsModules) + "\n\n"
 		s += "end Risor.Generated.C11\n"
 		return s
 	}})
